@@ -21,9 +21,6 @@ Definition kind_of (t : token) : tk :=
 (** [Token::lbp], read from the generated table. *)
 Definition lbp (t : token) : Z := gen_lbp (kind_of t).
 
-Definition utf8_len (c : Z) : Z :=
-  if c <? 128 then 1 else if c <? 2048 then 2 else if c <? 65536 then 3 else 4.
-
 Fixpoint byte_len (s : str) : Z :=
   match s with [] => 0 | c :: r => utf8_len c + byte_len r end.
 
